@@ -347,7 +347,22 @@ def _end_to_end(ctx, rid, repo):
                 # start values and fixed flags are plain lists; calls three and four pass EQUAL (not identical) ones
                 init, fixed = [at("i0"), at("i1")] if i_ >= 2 else [at(f"i0_{i_}"), at(f"i1_{i_}")], [False, False]
                 n0 = len(rec)
-                out = w.call_func(f, [mu_given, data, pdf, init, bounds, fixed], {"return_fitted_pars": True})
+                handed = (list(data), list(init), list(bounds), list(fixed))
+
+                def rewritten():
+                    now = (list(data), list(init), list(bounds), list(fixed))
+                    return [nm for nm, a_, b_ in zip(("data", "start values", "bounds", "fixed flags"), handed, now) if len(a_) != len(b_) or any(x is not y and x != y for x, y in zip(a_, b_))]
+
+                try:
+                    out = w.call_func(f, [mu_given, data, pdf, init, bounds, fixed], {"return_fitted_pars": True})
+                except Undecided:
+                    if rewritten():
+                        problems.append(f"{lab}: the caller's {' and '.join(rewritten())} (handed in as {btag}) are rewritten in place, so the fits run on other inputs than this call's -- and so does every later use of that list")
+                        break
+                    raise
+                if rewritten():
+                    problems.append(f"{lab}: the caller's {' and '.join(rewritten())} are rewritten in place (bounds handed in as {btag})")
+                    break
                 mine = rec[n0:]
                 stat = to_poly(out[0]) if isinstance(out, (tuple, list)) and len(out) == 2 else None
                 fx = f"{to_poly(mu)};{tag(data)}|{btag}"
